@@ -52,7 +52,7 @@ theorem loop_leaf (k : Kind) (hk : isLeafKind k = true) (m : Mode) (self : Tok) 
   | env =>
     have hl := hm rfl
     cases k <;> simp [isLeafKind] at hk <;>
-      simp [loop, classify, mkT, Node.kind, Node.depth, Node.tok, Kind.isElement, digestNode, isEndOf, hl,
+      simp [loop, classify, mkT, Node.kind, Node.depth, Node.tok, Kind.isElement, digestNode, isEndOf, isItemKind, hl,
         hnd, PAR_LEVEL, ENVIRONMENT_LEVEL, COMMAND_LEVEL]
   | until_ e =>
     cases k <;> simp [isLeafKind] at hk <;> cases e <;>
@@ -77,7 +77,7 @@ theorem loop_head (t : Tok) (hk : isHeadKind t.kind = true) (m : Mode) (self : T
   | env =>
     have hl := hm rfl
     cases tk <;> simp [isHeadKind] at hk <;>
-      simp_all [loop, classify, Node.kind, Node.depth, Node.tok, Kind.isElement, isEndOf,
+      simp_all [loop, classify, Node.kind, Node.depth, Node.tok, Kind.isElement, isEndOf, isItemKind,
         PAR_LEVEL, ENVIRONMENT_LEVEL] <;> (intro h; first | omega | (have := of_decide_eq_true h; omega))
   | until_ e =>
     cases tk <;> simp [isHeadKind] at hk <;> cases e <;>
@@ -156,6 +156,10 @@ theorem stopsItem_items (d : Nat) (is : Items) (tl : Stream) (h : StopsItem d tl
     refine ⟨some (mkT d (.item term)), fun g t hg => ?_⟩
     obtain ⟨g', rfl⟩ : ∃ g', g = g' + 1 := ⟨g - 1, by omega⟩
     simp [Items.render, loop, classify, mkT, Node.kind, Node.tok, Kind.isElement, EndClass.isInstance]
+  | consD term nsp body ty db rest =>
+    refine ⟨some (mkT d (.item term)), fun g t hg => ?_⟩
+    obtain ⟨g', rfl⟩ : ∃ g', g = g' + 1 := ⟨g - 1, by omega⟩
+    simp [Items.render, loop, classify, mkT, Node.kind, Node.tok, Kind.isElement, EndClass.isInstance]
 
 theorem skipWs_spaces (d : Nat) (n : List Bool) (X : Stream) : skipWs (blanks d n ++ X) = skipWs X := by
   induction n with
@@ -172,12 +176,14 @@ theorem skipWs_items (d : Nat) (is : Items) (tl : Stream) (h : skipWs tl = tl) :
   cases is with
   | nil => simpa [Items.render] using h
   | cons term nsp body rest => simp [Items.render, skipWs, isWs, mkT]
+  | consD term nsp body ty db rest => simp [Items.render, skipWs, isWs, mkT]
 
 theorem listSkip_items (d d' : Nat) (is : Items) (c : Cls) (ty : Nat) (tl : Stream) :
     listSkip (is.render d ++ mkT d' (.end_ c ty) :: tl) = is.render d ++ mkT d' (.end_ c ty) :: tl := by
   cases is with
   | nil => simp [Items.render, listSkip, isWs, mkT, Node.kind, Node.tok]
   | cons term nsp body rest => simp [Items.render, listSkip, isWs, mkT, Node.kind, Node.tok]
+  | consD term nsp body ty db rest => simp [Items.render, listSkip, isWs, mkT, Node.kind, Node.tok]
 
 theorem skipWs_body (d : Nat) (body : Blocks) (X : Stream) (h1 : body.startsNonWs = true) (h2 : body.wf = true)
     (hX : skipWs X = X) : skipWs (body.render d ++ X) = body.render d ++ X := by
@@ -193,6 +199,31 @@ theorem skipWs_body (d : Nat) (body : Blocks) (X : Stream) (h1 : body.startsNonW
     | list _ _ _ => simp [Blocks.render, Block.render, skipWs, isWs, mkT]
     | table _ _ _ _ => simp [Blocks.render, Block.render, skipWs, isWs, mkT]
 
+
+theorem stop_decl_item (g dd ty t : Nat) (ds : Nat) (sch : List Node) (rest : Stream) (hg : 1 ≤ g) :
+    loop g .env ⟨dd, .begin_ .env ty⟩ (.mk ⟨ds, .item t⟩ sch :: rest) = some ([], none, .mk ⟨ds, .item t⟩ sch :: rest) := by
+  obtain ⟨g', rfl⟩ : ∃ g', g = g' + 1 := ⟨g - 1, by omega⟩
+  simp [loop, classify, Node.kind, Node.tok, Kind.isElement, isEndOf, isItemKind, isListKind, PAR_LEVEL]
+
+/-- what follows an item's trailing declaration stops the declaration (leaving itself on the stream) -/
+def StopsDeclAt (d : Nat) (tl : Stream) : Prop :=
+  ∀ ty g, 2 ≤ g → loop g .env ⟨d + 1, .begin_ .env ty⟩ tl = some ([], none, tl)
+
+theorem stopsDecl_end (d : Nat) (ty' : Nat) (tl : Stream) : StopsDeclAt (d + 1) (mkT d (.end_ .list ty') :: tl) := by
+  intro ty g hg
+  obtain ⟨g', rfl⟩ : ∃ g', g = g' + 2 := ⟨g - 2, by omega⟩
+  simp [loop, classify, mkT, Node.kind, Node.tok, Node.depth, Kind.isElement, isEndOf, isItemKind, digestNode, PAR_LEVEL,
+    show d < d + 1 + 1 by omega]
+
+theorem stopsDecl_items (d : Nat) (is : Items) (tl : Stream) (h : StopsDeclAt d tl) : StopsDeclAt d (is.render d ++ tl) := by
+  cases is with
+  | nil => simpa [Items.render] using h
+  | cons term nsp body rest =>
+    intro ty g hg
+    simpa [Items.render, mkT] using stop_decl_item g (d + 1) ty term d [] _ (by omega)
+  | consD term nsp body ty' db rest =>
+    intro ty g hg
+    simpa [Items.render, mkT] using stop_decl_item g (d + 1) ty term d [] _ (by omega)
 
 /-! ### the main induction -/
 
@@ -210,7 +241,8 @@ def AProp (b : Block) : Prop :=
 
 def IProp (is : Items) : Prop :=
   ∀ (d : Nat) (self : Tok) (k : Nat) (tl : Stream) (R : Res),
-    is.wf = true → self.depth ≤ d → modeOk .env self → skipWs tl = tl → StopsItem d tl →
+    is.wf = true → self.depth ≤ d → modeOk .env self → isListKind self.kind = true → skipWs tl = tl → StopsItem d tl →
+    StopsDeclAt d tl →
     (∀ f, k ≤ f → loop f .env self tl = R) →
     ∀ f, k + is.cost ≤ f → loop f .env self (is.render d ++ tl) = prependRes (is.nodes d) R
 
@@ -280,7 +312,7 @@ theorem env_row_step (D ty f : Nat) (s s' : Stream) (cs : List Node)
     (hdig : digestNode f (.mk ⟨D, .row⟩ []) s = some (.mk ⟨D, .row⟩ cs, s')) :
     loop (f + 1) .env ⟨D, .begin_ .array ty⟩ (.mk ⟨D, .row⟩ [] :: s) =
       consRes (.mk ⟨D, .row⟩ cs) (loop f .env ⟨D, .begin_ .array ty⟩ s') := by
-  simp [loop, classify, Node.kind, Node.tok, Node.depth, Kind.isElement, isEndOf, hdig, PAR_LEVEL]
+  simp [loop, classify, Node.kind, Node.tok, Node.depth, Kind.isElement, isEndOf, isItemKind, hdig, PAR_LEVEL]
 
 theorem stop_amp (g D : Nat) (Y : Stream) (hg : 2 ≤ g) :
     loop g (.until_ .cellEnd) ⟨D, .cell⟩ (mkT D .amp :: Y) = some ([], some (mkT D .amp), mkT D .amp :: Y) := by
@@ -342,8 +374,8 @@ theorem block_ok : ∀ b : Block, AProp b
     intro d f tl hwf _ hf
     obtain ⟨f', rfl⟩ : ∃ f', f = f' + 1 := ⟨f - 1, by simp [Block.cost] at hf; omega⟩
     have h := items_ok is (d + 1) ⟨d + 1, .begin_ .list ty⟩ 1 (mkT d (.end_ .list ty) :: tl) (some ([], none, tl))
-      (by simpa [Block.wf] using hwf) (Nat.le_refl _) (by intro _; rfl)
-      (by simp [skipWs, isWs, mkT]) (stopsItem_end d .list ty tl)
+      (by simpa [Block.wf] using hwf) (Nat.le_refl _) (by intro _; rfl) rfl
+      (by simp [skipWs, isWs, mkT]) (stopsItem_end d .list ty tl) (stopsDecl_end d ty tl)
       (fun g hg => stop_envEnd g d _ .list ty tl hg) f' (by simp [Block.cost] at hf; omega)
     simp only [tailR, headTok, digestNode, Block.node, List.append_assoc, List.cons_append, List.nil_append]
     rw [show (Cls.list == Cls.list) = true from rfl]
@@ -361,12 +393,12 @@ theorem block_ok : ∀ b : Block, AProp b
     rw [h]
 theorem items_ok : ∀ is : Items, IProp is
   | .nil => by
-    intro d self k tl R _ _ _ _ _ h f hf
+    intro d self k tl R _ _ _ _ _ _ _ h f hf
     simpa [Items.render, Items.nodes] using h f (by simp [Items.cost] at hf; omega)
   | .cons term nsp body rest => by
-    intro d self k tl R hwf hd hm hws hst h f hf
+    intro d self k tl R hwf hd hm hlist hws hst hsd h f hf
     have hw : (body.startsNonWs = true ∧ body.wf = true) ∧ rest.wf = true := by simpa [Items.wf] using hwf
-    have ih := items_ok rest d self k tl R hw.2 hd hm hws hst h
+    have ih := items_ok rest d self k tl R hw.2 hd hm hlist hws hst hsd h
     simp only [Items.cost] at hf
     obtain ⟨f', rfl⟩ : ∃ f', f = f' + 2 := ⟨f - 2, by omega⟩
     obtain ⟨e, he⟩ := stopsItem_items d rest tl hst
@@ -383,7 +415,51 @@ theorem items_ok : ∀ is : Items, IProp is
     simp only [Items.render, Items.nodes, List.cons_append, List.append_assoc, prependRes_cons]
     rw [← ih (f' + 1) (by omega)]
     simp only [loop, classify, mkT, Node.kind, Node.tok, level_item, hl, Kind.isElement, isEndOf] at hdig ⊢
-    simp [PAR_LEVEL, ENVIRONMENT_LEVEL, hdig, Node.depth, Node.tok, hnd]
+    simp [PAR_LEVEL, ENVIRONMENT_LEVEL, hdig, Node.depth, Node.tok, hnd, isItemKind, hlist]
+  | .consD term nsp body ty db rest => by
+    intro d self k tl R hwf hd hm hlist hws hst hsd h f hf
+    have hw : ((body.startsNonWs = true ∧ body.wf = true) ∧ db.wf = true) ∧ rest.wf = true := by simpa [Items.wf] using hwf
+    have ih := items_ok rest d self k tl R hw.2 hd hm hlist hws hst hsd h
+    simp only [Items.cost] at hf
+    obtain ⟨f', rfl⟩ : ∃ f', f = f' + 2 := ⟨f - 2, by omega⟩
+    obtain ⟨e, he⟩ := stopsItem_items d rest tl hst
+    have hsd' := stopsDecl_items d rest tl hsd
+    -- the declaration absorbs `db` and stops at what follows the item
+    have hdecl : ∀ g, db.cost + 3 ≤ g → digestNode g (.mk ⟨d + 1, .begin_ .env ty⟩ []) (db.render (d + 1) ++ (rest.render d ++ tl))
+        = some (.mk ⟨d + 1, .begin_ .env ty⟩ (db.nodes (d + 1)), rest.render d ++ tl) := by
+      intro g hg
+      obtain ⟨g', rfl⟩ : ∃ g', g = g' + 1 := ⟨g - 1, by omega⟩
+      have hb := blocks_ok db (d + 1) .env ⟨d + 1, .begin_ .env ty⟩ 2 (rest.render d ++ tl) (some ([], none, rest.render d ++ tl))
+        hw.1.2 (Nat.le_refl _) (by intro _; rfl) (fun g hg => hsd' ty g hg) g' (by omega)
+      simp only [digestNode]
+      rw [show (Cls.env == Cls.list) = false from rfl]
+      simp only [Bool.false_eq_true, if_false]
+      rw [hb]; simp [prependRes]
+    -- the item's `digestUntil` sees the declaration token after the body, then stops at what follows
+    have hR : ∀ g, db.cost + 4 ≤ g → loop g (.until_ .item) ⟨d, .item term⟩
+        (.mk ⟨d + 1, .begin_ .env ty⟩ [] :: (db.render (d + 1) ++ (rest.render d ++ tl)))
+        = some ([.mk ⟨d + 1, .begin_ .env ty⟩ (db.nodes (d + 1))], e, rest.render d ++ tl) := by
+      intro g hg
+      obtain ⟨g', rfl⟩ : ∃ g', g = g' + 1 := ⟨g - 1, by omega⟩
+      rw [loop_head ⟨d + 1, .begin_ .env ty⟩ rfl (.until_ .item) ⟨d, .item term⟩ g' _ _ _ (by simp) (by intro h; cases h)
+        (hdecl g' (by omega)), he g' term (by omega)]
+      rfl
+    have hbody := blocks_ok body d (.until_ .item) ⟨d, .item term⟩ (db.cost + 4) _ _ hw.1.1.2
+      (Nat.le_refl _) (by intro h; cases h) hR f' (by omega)
+    have hskip : skipWs (blanks d nsp ++ (body.render d ++ (.mk ⟨d + 1, .begin_ .env ty⟩ [] :: (db.render (d + 1) ++ (rest.render d ++ tl)))))
+        = body.render d ++ (.mk ⟨d + 1, .begin_ .env ty⟩ [] :: (db.render (d + 1) ++ (rest.render d ++ tl))) := by
+      rw [skipWs_spaces, skipWs_body d body _ hw.1.1.1 hw.1.1.2 (by simp [skipWs, isWs])]
+    have hdig : digestNode (f' + 1) (mkT d (.item term))
+        (blanks d nsp ++ (body.render d ++ (.mk ⟨d + 1, .begin_ .env ty⟩ [] :: (db.render (d + 1) ++ (rest.render d ++ tl)))))
+        = some (.mk ⟨d, .item term⟩ (body.nodes d ++ [.mk ⟨d + 1, .begin_ .env ty⟩ (db.nodes (d + 1))]), rest.render d ++ tl) := by
+      simp only [mkT, digestNode]
+      rw [hskip, hbody]; simp [prependRes]
+    have hnd : ¬ d < self.depth := by omega
+    have hl := hm rfl
+    simp only [Items.render, Items.nodes, List.cons_append, List.append_assoc, prependRes_cons]
+    rw [← ih (f' + 1) (by omega)]
+    simp only [loop, classify, mkT, Node.kind, Node.tok, level_item, hl, Kind.isElement, isEndOf] at hdig ⊢
+    simp [PAR_LEVEL, ENVIRONMENT_LEVEL, hdig, Node.depth, Node.tok, hnd, isItemKind, hlist]
 theorem cells_ok : ∀ cs : Cells, CProp cs
   | .nil => by
     intro D c X eX hc hcw _ hsc hsr f hf
@@ -458,7 +534,7 @@ theorem stop_decl (g D ty : Nat) (stop : Node) (rest : Stream)
   simp only [Node.kind, Node.tok, Node.depth] at hk hd
   have hlt : sd < D + 1 := by omega
   rcases hk with rfl | rfl <;>
-    simp [loop, classify, Node.kind, Node.tok, Node.depth, Kind.isElement, isEndOf, digestNode, PAR_LEVEL, hlt]
+    simp [loop, classify, Node.kind, Node.tok, Node.depth, Kind.isElement, isEndOf, isItemKind, digestNode, PAR_LEVEL, hlt]
 
 theorem decl_digest (D ty : Nat) (bs : Blocks) (stop : Node) (rest : Stream) (hwf : bs.wf = true)
     (hk : stop.kind = .amp ∨ stop.kind = .endrow) (hd : stop.depth ≤ D) (f : Nat) (hf : bs.cost + 3 ≤ f) :
@@ -472,16 +548,61 @@ theorem decl_digest (D ty : Nat) (bs : Blocks) (stop : Node) (rest : Stream) (hw
   simp only [Bool.false_eq_true, if_false]
   rw [h]; simp [prependRes]
 
+/-! ### … and at the next `\item` (the `container` test of `Environment.digest`) -/
+
+theorem decl_digest_item (dd ty t ds : Nat) (bs : Blocks) (rest : Stream) (hwf : bs.wf = true)
+    (f : Nat) (hf : bs.cost + 2 ≤ f) :
+    digestNode f (mkT dd (.begin_ .env ty)) (bs.render dd ++ mkT ds (.item t) :: rest)
+      = some (.mk ⟨dd, .begin_ .env ty⟩ (bs.nodes dd), mkT ds (.item t) :: rest) := by
+  obtain ⟨f', rfl⟩ : ∃ f', f = f' + 1 := ⟨f - 1, by omega⟩
+  have h := blocks_ok bs dd .env ⟨dd, .begin_ .env ty⟩ 1 (mkT ds (.item t) :: rest) (some ([], none, mkT ds (.item t) :: rest))
+    hwf (Nat.le_refl _) (by intro _; rfl) (fun g hg => stop_decl_item g dd ty t ds [] rest hg) f' (by omega)
+  simp only [mkT, digestNode]
+  rw [show (Cls.env == Cls.list) = false from rfl]
+  simp only [Bool.false_eq_true, if_false]
+  simp only [mkT] at h
+  rw [h]; simp [prependRes]
+
+/-- an item whose body ends in a declaration: the item holds its body and the declaration node, the
+    declaration holds what follows it, and the next `\item` is left on the stream -/
+theorem item_decl_digest (d t t' ty : Nat) (body bs : Blocks) (rest : Stream)
+    (hb1 : body.startsNonWs = true) (hb2 : body.wf = true) (hwf : bs.wf = true) (f : Nat)
+    (hf : body.cost + bs.cost + 6 ≤ f) :
+    digestNode f (mkT d (.item t))
+        (body.render d ++ mkT (d + 1) (.begin_ .env ty) :: (bs.render (d + 1) ++ mkT d (.item t') :: rest))
+      = some (.mk ⟨d, .item t⟩ (body.nodes d ++ [.mk ⟨d + 1, .begin_ .env ty⟩ (bs.nodes (d + 1))]), mkT d (.item t') :: rest) := by
+  obtain ⟨f', rfl⟩ : ∃ f', f = f' + 1 := ⟨f - 1, by omega⟩
+  have hR : ∀ g, bs.cost + 4 ≤ g → loop g (.until_ .item) ⟨d, .item t⟩
+      (mkT (d + 1) (.begin_ .env ty) :: (bs.render (d + 1) ++ mkT d (.item t') :: rest))
+      = some ([.mk ⟨d + 1, .begin_ .env ty⟩ (bs.nodes (d + 1))], some (mkT d (.item t')), mkT d (.item t') :: rest) := by
+    intro g hg
+    obtain ⟨g', rfl⟩ : ∃ g', g = g' + 1 := ⟨g - 1, by omega⟩
+    have hdig := decl_digest_item (d + 1) ty t' d bs rest hwf g' (by omega)
+    simp only [mkT] at hdig ⊢
+    rw [loop_head ⟨d + 1, .begin_ .env ty⟩ rfl (.until_ .item) ⟨d, .item t⟩ g' _ _ _ (by simp) (by intro h; cases h) hdig]
+    obtain ⟨g'', rfl⟩ : ∃ g'', g' = g'' + 1 := ⟨g' - 1, by omega⟩
+    simp [loop, classify, Node.kind, Node.tok, Kind.isElement, EndClass.isInstance, consRes]
+  have hbody := blocks_ok body d (.until_ .item) ⟨d, .item t⟩ (bs.cost + 4) _ _ hb2 (Nat.le_refl _) (by intro h; cases h) hR f' (by omega)
+  have hskip : skipWs (body.render d ++ mkT (d + 1) (.begin_ .env ty) :: (bs.render (d + 1) ++ mkT d (.item t') :: rest))
+      = body.render d ++ mkT (d + 1) (.begin_ .env ty) :: (bs.render (d + 1) ++ mkT d (.item t') :: rest) :=
+    skipWs_body d body _ hb1 hb2 (by simp [skipWs, isWs, mkT])
+  simp only [mkT, digestNode] at hskip hbody ⊢
+  rw [hskip, hbody]; simp [prependRes]
+
 /-! ### shape of the prescribed nodes -/
 
 theorem items_shape : ∀ (is : Items) (d : Nat),
     (is.nodes d).length = is.length ∧
     (is.nodes d).map (fun n => n.kind) = is.terms.map Kind.item ∧
-    (is.nodes d).map Node.ch = is.bodies.map (·.nodes d)
-  | .nil, d => by simp [Items.nodes, Items.length, Items.terms, Items.bodies]
+    (is.nodes d).map Node.ch = is.children d
+  | .nil, d => by simp [Items.nodes, Items.length, Items.terms, Items.children]
   | .cons t n b r, d => by
     have ih := items_shape r d
-    simp only [Items.nodes, Items.length, Items.terms, Items.bodies, List.length_cons, List.map_cons, ih]
+    simp only [Items.nodes, Items.length, Items.terms, Items.children, List.length_cons, List.map_cons, ih]
+    simp [Node.kind, Node.tok, Node.ch]
+  | .consD t n b ty db r, d => by
+    have ih := items_shape r d
+    simp only [Items.nodes, Items.length, Items.terms, Items.children, List.length_cons, List.map_cons, ih]
     simp [Node.kind, Node.tok, Node.ch]
 
 theorem cells_shape : ∀ (cs : Cells) (d : Nat), (cs.nodes d).map Node.ch = cs.toList.map (·.nodes d)
